@@ -178,4 +178,43 @@ pub fn run(rec: &mut Recorder, w: &mut World, tier: &str, seed: u64) {
         rec.count(&format!("failclosed:{}", what));
         rec.nontrivial_case(what);
     }
+
+    // ---- (c') the same through a second section set and enforce_with_context: the malformed rule is stored after well-formed ones ----
+    for (what, rules) in [
+        ("ctx-malformed-short-rule-second", vec![sv(&["zz", "zz", "zz"]), sv(&["a", "a"])]),
+        ("ctx-malformed-long-rule-second", vec![sv(&["zz", "zz", "zz"]), sv(&["a", "a", "a", "a"])]),
+        ("ctx-malformed-long-rule-last-of-three", vec![sv(&["zz", "zz", "zz"]), sv(&["yy", "yy", "yy"]), sv(&["a", "a", "a", "a"])]),
+        ("ctx-malformed-rule-first", vec![sv(&["a", "a"]), sv(&["a", "a", "a"])]),
+    ] {
+        let k = ks[0].clone();
+        let mut m = model_of(&k, E_ALLOW, false, "", false);
+        let b2 = model_of(&k, E_ALLOW, false, "2", false);
+        m.r.extend(b2.r); m.p.extend(b2.p); m.e.extend(b2.e); m.m.extend(b2.m);
+        rec.begin();
+        new_enforcer(rec, w, &m, "memory", &lines_of("p2", &rules, &k.g, &[]), "", false);
+        let reqs: Vec<Vec<String>> = keys.iter().step_by(7).take(20).map(|x| vec![sval("a"), sval(x), sval("a")]).chain(std::iter::once(vec![sval("a"), sval("a"), sval("a")])).collect();
+        let out = rec.exec(w, &format!("e.enfcs\t2\t{}", enc_reqs(&reqs)));
+        if out.bytes().any(|c| c != b'e') { rec.fail("reached-failure-not-error", format!("[{}] every context request reaches the malformed rule and must be an error: {}", what, out)); }
+        rec.count(&format!("failclosed:{}", what));
+        rec.nontrivial_case(what);
+    }
+    // ---- (d) a CachedEnforcer with enforcement switched off and on again: what was answered (and granted) while it was off
+    //      must not be served afterwards - a wrong-arity request is an error again ----
+    for twice in [false, true] {
+        let k = ks[0].clone();
+        let m = model_of(&k, E_ALLOW, false, "", false);
+        rec.begin();
+        rec.exec(w, "e.cached\ttrue");
+        new_enforcer(rec, w, &m, "memory", &lines_of("p", &[sv(&["a", "a", "a"])], &k.g, &[]), "", false);
+        let reqs: Vec<Vec<String>> = vec![vec![sval("a"), sval("a"), sval("a")], vec![sval("a"), sval("a")], vec![sval("a"), sval("a"), sval("a"), sval("a")], vec![], vec![sval("zz"), sval("zz"), sval("zz")], vec![sval("a")]];
+        let base = if twice { rec.exec(w, &format!("e.enfs\t{}", enc_reqs(&reqs))) } else { "teeefe".to_string() };
+        rec.exec(w, "e.auto\tenforce\tfalse");
+        let off = rec.exec(w, &format!("e.enfs\t{}", enc_reqs(&reqs)));
+        rec.exec(w, "e.auto\tenforce\ttrue");
+        let on = rec.exec(w, &format!("e.enfs\t{}", enc_reqs(&reqs)));
+        rec.exec(w, "e.cached\tfalse");
+        if on != "teeefe" || base != "teeefe" { rec.fail("granted-after-switching-back-on", format!("cached enforcer: before {} ; while enforcement was off {} ; switched on again {} (wrong-arity requests must be errors, the unmatched one denied)", base, off, on)); }
+        rec.count("failclosed:cached-enable-enforce-window");
+        rec.nontrivial_case(&format!("cached-window|{}", twice));
+    }
 }
